@@ -558,7 +558,21 @@ BUILTIN_FUNCS = {"isinstance": isinstance, "abs": abs, "bool": bool, "sum": sum,
                  "map": lambda f, *its: [f(*a) for a in zip(*its)], "filter": lambda f, it: [x for x in it if (f(x) if f is not None else x)],
                  "range": lambda *a: list(range(*a)), "ord": ord, "chr": chr,
                  # pure formatting / conversion builtins on plain values (numbers, str, bytes): delegated to CPython
-                 "format": lambda v, spec="": _plain_format(v, spec), "partial": lambda f_, *a, **k: (lambda *b, **kk: f_(*a, *b, **k, **kk)), "oct": oct, "bin": bin, "ascii": ascii, "pow": pow, "bytearray": bytearray, "frozenset": frozenset}
+                 "format": lambda v, spec="": _plain_format(v, spec), "partial": lambda f_, *a, **k: (lambda *b, **kk: f_(*a, *b, **k, **kk)), "reduce": lambda f_, it, *init: _reduce(f_, it, *init), "oct": oct, "bin": bin, "ascii": ascii, "pow": pow, "bytearray": bytearray, "frozenset": frozenset}
+
+
+def _reduce(f_, it, *init):
+    """functools.reduce over an interpreted function / lambda / model callable"""
+    items = list(it)
+    if init:
+        acc = init[0]
+    elif items:
+        acc, items = items[0], items[1:]
+    else:
+        raise ModelRaised("TypeError", "reduce() of empty iterable with no initial value")
+    for x in items:
+        acc = f_(acc, x)
+    return acc
 
 
 def _plain_format(v, spec=""):
